@@ -2,8 +2,11 @@ package main
 
 import (
 	"bytes"
+	"encoding/json"
 	"fmt"
 	"math"
+	"net/http"
+	"net/http/httptest"
 	"sort"
 	"strings"
 	"sync"
@@ -314,6 +317,39 @@ func (t *rt) mkLoggers(l *zap.Logger) {
 func (t *rt) setAtomic(v int8) {
 	t.atom.SetLevel(zapcore.Level(v))
 	t.cur = v
+}
+
+// changeAtomic changes the shared AtomicLevel through one of its public
+// interfaces. The cores were built earlier from the VALUE t.atom (a struct
+// wrapping a pointer to the shared cell); t.atom plays the application's
+// variable / config field that is later decoded into.
+func (t *rt) changeAtomic(way int, v int8) error {
+	name := zapcore.Level(v).String()
+	var err error
+	switch way {
+	case waySetLevel:
+		t.atom.SetLevel(zapcore.Level(v))
+	case wayText:
+		err = (&t.atom).UnmarshalText([]byte(name))
+	case wayTextUpper:
+		err = (&t.atom).UnmarshalText([]byte(strings.ToUpper(name)))
+	case wayJSON:
+		cfg := struct {
+			Name  string          `json:"name"`
+			Level zap.AtomicLevel `json:"level"`
+		}{Level: t.atom}
+		err = json.Unmarshal([]byte(`{"name":"reload","level":"`+name+`"}`), &cfg)
+		t.atom = cfg.Level // the application keeps using its config
+	case wayHTTP:
+		req := httptest.NewRequest(http.MethodPut, "/level", strings.NewReader(`{"level":"`+name+`"}`))
+		rec := httptest.NewRecorder()
+		t.atom.ServeHTTP(rec, req)
+		if rec.Code != http.StatusOK {
+			err = fmt.Errorf("HTTP status %d: %s", rec.Code, strings.TrimSpace(rec.Body.String()))
+		}
+	}
+	t.cur = v
+	return err
 }
 
 func (t *rt) reset() {
